@@ -45,8 +45,8 @@ class C02(Property):
             "point may repeat its predecessor's position only as the last point, directly before a typed point (positions identical), or inside a Catmull segment after an untyped point; a "
             "typed point that the encoder may write implicitly (same type as the previous typed point, not perfect, followed by an untyped point) must not be Catmull (consecutive Catmull "
             "segments: excluded by the property text), must equal itself under == (no NaN) and must NOT repeat its predecessor's position (finding F17). Every exclusion was replayed on the "
-            "real code: F17 shape fails as recorded; the index-0 relative [o(C), o, p] (from `C|100:100|100:100|200:100` at 100,100) ALSO fails on the real code and is NOT tagged F17 by the "
-            "oracle's predicate (reported); all shapes inside the class that were tried round-trip",
+            "real code: F17 shape fails as recorded; the index-0 relative [o(C), o, p] (from `C|100:100|100:100|200:100` at 100,100) also fails on the real code — the same finding F17 (a typed FIRST point repeated by "
+            "the second one; the oracle's predicate counts it on main); all shapes inside the class that were tried round-trip",
         "slider_rt / slider_rt_exact": "law-dependent, one line at a time, any decoder state: the slider line decodes to a slider with the same start time, position (integral), combo data "
             "(new_combo or-ed with the forcing rule), control points (appended to the state's curve_points, which is empty in every reachable state — slider_rt_exact takes that as a "
             "hypothesis), repeat count (0..8999), the written length as the decoder stores it (max(len,0), absent below f64::EPSILON; slider_rt_exact: an expected length d with max(d,0)=d "
@@ -54,8 +54,8 @@ class C02(Property):
             "oracle's none ≡ some(natural length) reading), repeat_count + 2 node sample lists and velocity 1 (set later by the map-level processing). node_samples_rt: names and banks of a node "
             "list in the decoder's own shape (Normal with a bank, then finish/whistle/clap sharing a bank) come back; a node's custom file name is not written (finding F18). The written "
             "length must be representable and within ±131072 — a forced hypothesis and a real defect: replayed on the code, a slider without a length field whose computed curve is longer "
-            "than 131072 (`0,0,1000,2,0,L|131072:131072|-131072:-131072|131072:131072,1`) is written with that length and the line is rejected on re-read (object lost; not reached by the "
-            "generators; reported, not yet in known_findings.json)",
+            "than 131072 (`0,0,1000,2,0,L|131072:131072|-131072:-131072|131072:131072,1`) is written with that length and the line is rejected on re-read (object lost): finding F20, "
+            "kept as the explicit hypothesis RepSlider.distRep",
         "roundtrip": "NOT yet theorems (only `def roundtrip_statement : Prop`, `def hitobjects_roundtrip_statement : Prop`): that every object of a DECODED map is representable in the sense of "
             "RepCircle / RepSlider / RepSpinner / RepHold (outside F17/F18), the assembly over all objects of a map and the map-level processing after the lines, timing points and the "
             "effective SV/kiai/scroll timelines (layer 5 of DESIGN 5.2), and therefore the property as a whole. These are evaluated on the implementation by the `rt` oracle "
